@@ -122,6 +122,133 @@ class AddHelper(_PairContract):
                 ('ranges', H.And(W.den_of(s) >= 0, W.den_of(s) < H.pow2(ns.L), W.den_of(c) >= 0, W.den_of(c) <= 1))]
 
 
+_OR_STUB = 'op(assumed: OR of two one-bit wires)'
+
+
+def _or_stub():
+    """the `op` parameter while tree_reduce's own body is verified: assumed to be what the call sites
+    are REQUIRED to pass (precondition `op is OR on one-bit wires`, checked at every call by running
+    the caller's lambda on two arbitrary one-bit wires)"""
+    import z3
+    from pyvc.engine import Builtin, SObj
+
+    def fn(I, args, kwargs):
+        a, b = args
+        ok = isinstance(a, SObj) and isinstance(b, SObj)
+        I.st.vc('op is applied to one-bit wires',
+                z3.And(W.bw_of(a) == 1, W.bw_of(b) == 1) if ok else z3.BoolVal(False), kind='callpre')
+        return W.new_wire(I, 1, z3.If(W.den_of(a) + W.den_of(b) > 0, 1, 0), hint='or')
+    return Builtin(_OR_STUB, fn)
+
+
+@register
+class TreeReduceOr(WireContract):
+    """tree_reduce(op, vector) for a WireVector `vector` and an `op` that ORs two one-bit wires: a one-bit
+    wire that is 1 iff the vector is non-zero.  Induction on len(vector) (the function recurses on the
+    two halves).  The higher-order precondition is discharged at each call site by executing the passed
+    callable on two arbitrary one-bit wires."""
+    module, qualname, props = 'pyrtl.corecircuits', 'tree_reduce', ('C03',)
+    recursive_ok = True
+
+    def setup(self, I, case):
+        v = W.input_wire(I, 'v')
+        return self.bind(I, None, [_or_stub(), v], {})
+
+    def bind(self, I, selfobj, args, kwargs):
+        import z3
+        from pyvc.engine import SObj, Builtin, Unsupported
+        op, v = args
+        if not isinstance(v, SObj) or v.fields.get('bitwidth') is None:
+            raise Unsupported('tree_reduce over %r (contract covers WireVector arguments)' % (v,))
+        if isinstance(op, Builtin) and op.name == _OR_STUB:
+            ok = z3.BoolVal(True)
+        else:
+            st = I.st
+            n = next(st.n)
+            x, y = z3.Int('opx!%d' % n), z3.Int('opy!%d' % n)
+            st.assume(z3.And(x >= 0, x <= 1, y >= 0, y <= 1))
+            r = I.call(op, [W.new_wire(I, 1, x, hint='opx'), W.new_wire(I, 1, y, hint='opy')])
+            if isinstance(r, SObj) and r.fields.get('bitwidth') is not None and r.fields.get('_den') is not None:
+                ok = z3.And(W.bw_of(r) == 1, W.den_of(r) == z3.If(x + y > 0, 1, 0))
+            else:
+                ok = z3.BoolVal(False)
+        return NS(args=[op, v], va=W.den_of(v), wa=W.bw_of(v), op_ok=ok)
+
+    def pre(self, ns):
+        return [('op is OR on one-bit wires', ns.op_ok)]
+
+    def measure(self, ns):
+        return ns.wa
+
+    def raises(self, ns):
+        return [('PyrtlError', ns.wa < 1)]
+
+    def post(self, ns):
+        return _shape(ns, 1, H.If(ns.va != 0, 1, 0))
+
+    def concrete(self, tier='quick'):
+        fn = self.qualname
+
+        def mk(w):
+            def thunk():
+                import pyrtl
+                from pyrtl import corecircuits as cc
+                pyrtl.reset_working_block()
+                a = pyrtl.Input(w, 'a')
+                r = cc.or_all_bits(a) if fn == 'or_all_bits' else cc.tree_reduce(lambda x, y: x | y, a)
+                o = pyrtl.Output(len(r), 'o')
+                o <<= r
+                sim = pyrtl.Simulation()
+                vals = range(1 << w) if w <= 6 else [0] + [1 << i for i in range(w)] + [(1 << w) - 1]
+                for x in vals:
+                    sim.step({'a': x})
+                    if sim.inspect('o') != int(x != 0) or len(r) != 1:
+                        return False, (x, sim.inspect('o'), len(r)), (int(x != 0), 1)
+                return True, 'ok', 'ok'
+            return thunk
+        for w in (1, 2, 3, 4, 5, 6, 7, 8, 11, 16, 17):
+            yield ('w=%d' % w, mk(w))
+
+
+@register
+class OrAllBits(WireContract):
+    """or_all_bits(v): one bit, 1 iff v != 0"""
+    module, qualname, props = 'pyrtl.corecircuits', 'or_all_bits', ('C03',)
+
+    def setup(self, I, case):
+        return self.bind(I, None, [W.input_wire(I, 'v')], {})
+
+    def bind(self, I, selfobj, args, kwargs):
+        v = args[0]
+        return NS(args=[v], va=W.den_of(v), wa=W.bw_of(v))
+
+    def post(self, ns):
+        return _shape(ns, 1, H.If(ns.va != 0, 1, 0))
+
+    def concrete(self, tier='quick'):
+        fn = self.qualname
+
+        def mk(w):
+            def thunk():
+                import pyrtl
+                from pyrtl import corecircuits as cc
+                pyrtl.reset_working_block()
+                a = pyrtl.Input(w, 'a')
+                r = cc.or_all_bits(a) if fn == 'or_all_bits' else cc.tree_reduce(lambda x, y: x | y, a)
+                o = pyrtl.Output(len(r), 'o')
+                o <<= r
+                sim = pyrtl.Simulation()
+                vals = range(1 << w) if w <= 6 else [0] + [1 << i for i in range(w)] + [(1 << w) - 1]
+                for x in vals:
+                    sim.step({'a': x})
+                    if sim.inspect('o') != int(x != 0) or len(r) != 1:
+                        return False, (x, sim.inspect('o'), len(r)), (int(x != 0), 1)
+                return True, 'ok', 'ok'
+            return thunk
+        for w in (1, 2, 3, 4, 5, 6, 7, 8, 11, 16, 17):
+            yield ('w=%d' % w, mk(w))
+
+
 class _Bin(WireContract):
     def setup(self, I, case):
         a, b = W.input_wire(I, 'a'), W.input_wire(I, 'b')
@@ -153,6 +280,40 @@ class BasicSub(_Bin):
 
     def post(self, ns):
         return _shape(ns, ns.L + 1, H.mod(ns.va - ns.vb, H.pow2(ns.L + 1)))
+
+
+@register
+class BasicEq(_Bin):
+    """_basic_eq(a, b): one bit, 1 iff a == b - the documented '=' primitive"""
+    module, qualname, props = 'pyrtl.corecircuits', '_basic_eq', ('C03',)
+
+    def pre(self, ns):
+        return [('equal lengths', ns.wa == ns.wb)]
+
+    def post(self, ns):
+        return _shape(ns, 1, H.If(ns.va == ns.vb, 1, 0))
+
+    def concrete(self, tier='quick'):
+        def mk(w):
+            def thunk():
+                import pyrtl
+                from pyrtl.corecircuits import _basic_eq
+                pyrtl.reset_working_block()
+                a, b = pyrtl.Input(w, 'a'), pyrtl.Input(w, 'b')
+                r = _basic_eq(a, b)
+                o = pyrtl.Output(len(r), 'o')
+                o <<= r
+                sim = pyrtl.Simulation()
+                vals = range(1 << w) if w <= 4 else [0, 1, (1 << w) - 1, 1 << (w - 1), 5, 6]
+                for x in vals:
+                    for y in vals:
+                        sim.step({'a': x, 'b': y})
+                        if sim.inspect('o') != int(x == y) or len(r) != 1:
+                            return False, ((x, y), sim.inspect('o'), len(r)), (int(x == y), 1)
+                return True, 'ok', 'ok'
+            return thunk
+        for w in (1, 2, 3, 4, 5, 7, 8, 9):
+            yield ('w=%d' % w, mk(w))
 
 
 @register
